@@ -89,3 +89,10 @@ CASES += [
     {"name": "bounded table evicts the oldest record of both lists", "kind": "twin", "edits": [
         (HO, _ADD, "        if len(self._shifts) >= 1000000:\n            self._shifts.pop(0)\n            self._fcs.pop(0)\n" + _ADD, 1)]},
 ]
+
+CASES += [
+    {"name": "only neighbouring bands let through to the dipole (seeded change of round 7)", "kind": "mutant", "rule": "C10-G", "edits": [
+        ("quantarhei/builders/aggregate_base.py", "        if (abs(b1-b2) != 1) and (abs(b1-b2) != 2):\n            return -1", "        if abs(b1-b2) != 1:\n            return -1", 1)]},
+    {"name": "band selection written as a membership test", "kind": "twin", "edits": [
+        ("quantarhei/builders/aggregate_base.py", "        if (abs(b1-b2) != 1) and (abs(b1-b2) != 2):\n            return -1", "        if not (abs(b1-b2) == 1 or abs(b1-b2) == 2):\n            return -1", 1)]},
+]
